@@ -215,6 +215,31 @@ def fields_by_var_clauses(chk, I, mod, cls):
         return _MISSING
     I.hooks["iter"] = iter_hook
 
+    # the unmarshaller leaves out dataclass fields that are not constructor arguments (fix 85dc48c): the set of their names is
+    # taken by contract for exactly this expression (dataclasses: __dataclass_fields__ maps field name -> Field, Field.init)
+    noinit = z3.Function("is_init_false_field", Val, Val, BoolS)
+
+    class NoInitNames:
+        host_symbolic = True
+
+        def __init__(self, t):
+            self.t = t
+    I.expr_contracts = {
+        "{f.name for f in getattr(self.t, '__dataclass_fields__', {}).values() if not f.init}":
+            lambda I, env, path: (I.assumed_used.add("dataclasses: {f.name for f in t.__dataclass_fields__.values() if not f.init} is the set of "
+                                                      "names of t's fields declared init=False (empty for a class that is not a dataclass)"),
+                                  NoInitNames(to_val(I.getattr(env.lookup("self"), "t", path))))[1]}
+    prev_contains = I.hooks.get("contains")
+
+    def contains(I, path, container, item):
+        if isinstance(container, NoInitNames):
+            return SBool(noinit(container.t, to_val(item)))
+        if prev_contains is not None:
+            return prev_contains(I, path, container, item)
+        raise Unsupported(f"`in` on {container!r}")
+    I.hooks["contains"] = contains
+    is_un = "unmarshals" in mod
+
     def inst(I, path, cv, args, kwargs):
         from pyvc.env import _MISSING
         if cv.name.startswith("NoOp"):
@@ -237,7 +262,8 @@ def fields_by_var_clauses(chk, I, mod, cls):
                                                    path.fresh("f_val", z3.ArraySort(Val, Val))))
 
     def dom(t, key, k):
-        return z3.And(hidx(key) >= 0, hidx(key) < k, hint_name(t, hidx(key)) == key)
+        base = z3.And(hidx(key) >= 0, hidx(key) < k, hint_name(t, hidx(key)) == key)
+        return z3.And(base, z3.Not(noinit(t, key))) if is_un else base
 
     def inv(I, path, env, k):
         t, c = box["t"], box["c"]
@@ -264,17 +290,18 @@ def fields_by_var_clauses(chk, I, mod, cls):
         return [slf], {}, {"t": t, "ctx": c}
     results = I.run_function(func, mk)
     for pi, (path, out, obls, writes, cur) in enumerate(results):
-        _fbv_one(chk, func, pi, path, out, obls, cur, hint_n, hidx, hint_name, spec_value)
+        _fbv_one(chk, func, pi, path, out, obls, cur, hint_n, hidx, hint_name, spec_value, noinit if is_un else None)
     chk.add(Ob(func, "cover", "pre", results[0][0].hyps, z3.BoolVal(True), expect="sat"))
 
 
-def _fbv_one(chk, func, pi, path, out, obls, cur, hint_n, hidx, hint_name, spec_value):
+def _fbv_one(chk, func, pi, path, out, obls, cur, hint_n, hidx, hint_name, spec_value, noinit=None):
     pid, hy = f"p{pi}", path.hyps
     t, c = cur["t"], cur["ctx"]
     for nm, pc, goal in obls:
         chk.add(Ob(func, nm, pid, pc, goal))
     if out.kind == "end":
         return
+    # (for the unmarshaller: the hinted names that are constructor arguments - init=False dataclass fields are left out)
     names = ["fields-are-exactly-the-hinted-names", "field-routine-is-looked-up-by-the-field's-annotation"]
     if out.kind != "ret" or not isinstance(out.value, (SDict, dict)):
         _fail_all(chk, func, names + ["loop-preserve:hints"], pid, hy,
@@ -283,6 +310,8 @@ def _fbv_one(chk, func, pi, path, out, obls, cur, hint_n, hidx, hint_name, spec_
     d = out.value
     key = path.fresh("key")
     dom = z3.And(hidx(key) >= 0, hidx(key) < hint_n(t), hint_name(t, hidx(key)) == key)
+    if noinit is not None:
+        dom = z3.And(dom, z3.Not(noinit(t, key)))
     if isinstance(d, dict):
         chk.add(Ob(func, names[0], pid, hy, z3.BoolVal(False), {"note": "concrete dict returned"}))
         return
